@@ -28,7 +28,7 @@ use lightning::verif::monitor::{steps as update_steps, CommitmentInfo, HtlcInfo,
 use rand::rngs::StdRng;
 use rand::{Rng, SeedableRng};
 use serde_json::{json, Value};
-use std::collections::{HashMap, VecDeque};
+use std::collections::{HashMap, HashSet, VecDeque};
 use std::panic::{catch_unwind, AssertUnwindSafe};
 use std::sync::{Arc, Mutex};
 use vharness::trace::TraceWriter;
@@ -274,6 +274,15 @@ struct Net {
 	mgr_snaps: Vec<Vec<Vec<u8>>>,
 	/// snapshot taken while no monitor update of that node was in flight (nothing was being held)
 	mgr_clean: Vec<Vec<bool>>,
+	/// number of messages the node had emitted when each snapshot was taken, and so far
+	mgr_msgs: Vec<Vec<u64>>,
+	msgs_emitted: Vec<u64>,
+	/// channels (by index) on which the node may still hold messages generated before the snapshot it
+	/// was restarted from was taken (they are released when the peer's channel_reestablish is handled
+	/// with no monitor write pending); per snapshot: that set plus the channels with a write in flight
+	dirty: Vec<HashSet<usize>>,
+	mgr_held: Vec<Vec<HashSet<usize>>>,
+	reest_seen: HashSet<(usize, usize)>,
 	/// snapshot index remembered by a `save` script step (the manager the application wrote last)
 	saved_idx: Vec<Option<usize>>,
 	node_cfgs: &'static Vec<NodeCfg<'static>>,
@@ -339,6 +348,16 @@ impl Net {
 		}
 	}
 
+	/// a channel stops being "dirty" once the node has handled the peer's channel_reestablish on it
+	/// with no monitor write pending (that is when LDK sends what it had been holding), or is closed
+	fn settle_dirty(&mut self, i: usize) {
+		if self.dirty[i].is_empty() { return; }
+		let pend: HashSet<usize> = self.persisters[i].pending.lock().unwrap().iter().map(|p| p.0).collect();
+		let open: HashSet<usize> = self.nodes[i].node.list_channels().iter().map(|c| self.chan(&c.channel_id)).collect();
+		let seen = self.reest_seen.clone();
+		self.dirty[i].retain(|c| open.contains(c) && !(seen.contains(&(i, *c)) && !pend.contains(c)));
+	}
+
 	fn enqueue(&mut self, from: usize, to_pk: &PublicKey, w: Wire) {
 		let to = self.idx_of(to_pk);
 		let mut d = self.describe(&w);
@@ -346,6 +365,7 @@ impl Net {
 		d["from"] = json!(from);
 		d["to"] = json!(to);
 		self.ev(d);
+		self.msgs_emitted[from] += 1;
 		self.queues.entry((from, to)).or_default().push_back(w);
 	}
 
@@ -442,8 +462,12 @@ impl Net {
 		for i in 0..self.nodes.len() {
 			if self.nodes[i].node.get_and_clear_needs_persistence() {
 				self.mgr_snaps[i].push(self.nodes[i].node.encode());
-				let clean = self.persisters[i].pending.lock().unwrap().is_empty();
-				self.mgr_clean[i].push(clean);
+				self.settle_dirty(i);
+				let mut held: HashSet<usize> = self.persisters[i].pending.lock().unwrap().iter().map(|p| p.0).collect();
+				held.extend(self.dirty[i].iter().cloned());
+				self.mgr_clean[i].push(held.is_empty());
+				self.mgr_held[i].push(held);
+				self.mgr_msgs[i].push(self.msgs_emitted[i]);
 				let k = self.mgr_snaps[i].len() - 1;
 				self.ev(json!({"ev":"mgr_snap","node":i,"k":k}));
 			}
@@ -476,6 +500,7 @@ impl Net {
 		let la = self.queues.get(&(a, b)).map(|q| q.len()).unwrap_or(0);
 		let lb = self.queues.get(&(b, a)).map(|q| q.len()).unwrap_or(0);
 		self.ev(json!({"ev":"disconnect","a":a,"b":b,"lost_ab":la,"lost_ba":lb}));
+		if let Some(cid) = self.chan_ids.get(&(a.min(b), a.max(b))).cloned() { let c = self.chan(&cid); self.reest_seen.remove(&(a, c)); self.reest_seen.remove(&(b, c)); }
 		self.queues.remove(&(a, b));
 		self.queues.remove(&(b, a));
 		let (pa, pb) = (self.nodes[a].node.get_our_node_id(), self.nodes[b].node.get_our_node_id());
@@ -582,6 +607,7 @@ impl Net {
 		d["to"] = json!(to);
 		self.ev(d);
 		let from_pk = self.nodes[from].node.get_our_node_id();
+		if let Wire::Reestablish(ref m) = w { let c = self.chan(&m.channel_id); self.reest_seen.insert((to, c)); }
 		let n = &self.nodes[to].node;
 		match w {
 			Wire::Add(m) => n.handle_update_add_htlc(from_pk, &m),
@@ -986,6 +1012,7 @@ impl Net {
 				self.connected.insert(key, false);
 				self.queues.remove(&(i, j));
 				self.queues.remove(&(j, i));
+				if let Some(cid) = self.chan_ids.get(&key).cloned() { let c = self.chan(&cid); self.reest_seen.remove(&(j, c)); }
 				let pi = self.nodes[i].node.get_our_node_id();
 				self.nodes[j].node.peer_disconnected(pi);
 				if reload { let pj = self.nodes[j].node.get_our_node_id(); self.nodes[i].node.peer_disconnected(pj); }
@@ -996,15 +1023,22 @@ impl Net {
 			self.drain();
 			self.proj(i);
 			self.mgr_snaps[i].push(self.nodes[i].node.encode());
-			self.mgr_clean[i].push(true);
+			self.settle_dirty(i);
+			self.mgr_clean[i].push(self.dirty[i].is_empty());
+			self.mgr_held[i].push(self.dirty[i].clone());
+			self.mgr_msgs[i].push(self.msgs_emitted[i]);
 			let k = self.mgr_snaps[i].len() - 1;
 			self.ev(json!({"ev":"mgr_snap","node":i,"k":k}));
 		}
 		let nsn = self.mgr_snaps[i].len();
 		let mut k = if reload { nsn - 1 } else { nsn - 1 - back.min(nsn - 1) };
-		// use a snapshot taken while nothing was held back by an in-flight monitor update
-		while k > 0 && !self.mgr_clean[i][k] { k -= 1; }
+		// use a snapshot taken while nothing was held back by an in-flight monitor update, or one since
+		// which the node has released nothing (the held messages are still held: the restarted node
+		// replays the in-flight updates and sends them then) -- see DESIGN.md 11.2 "C10 snapshots"
+		while k > 0 && !(self.mgr_clean[i][k] || self.mgr_msgs[i][k] == self.msgs_emitted[i]) { k -= 1; }
 		let mgr_bytes = self.mgr_snaps[i][k].clone();
+		self.dirty[i] = self.mgr_held[i][k].clone();
+		self.reest_seen.retain(|x| x.0 != i);
 		// monitors
 		let snaps = self.persisters[i].snapshots.lock().unwrap().clone();
 		let pend = self.persisters[i].pending.lock().unwrap().clone();
@@ -1038,7 +1072,7 @@ impl Net {
 		}
 		self.persisters[i].pending.lock().unwrap().clear();
 		*self.persisters[i].in_progress.lock().unwrap() = false;
-		self.ev(json!({"ev":"crash","node":i,"reload":reload,"mgr":k,"mons":mon_desc}));
+		self.ev(json!({"ev":"crash","node":i,"reload":reload,"mgr":k,"mons":mon_desc,"mgr_clean":self.mgr_clean[i][k]}));
 		let cfg = self.nodes[i].node.get_current_config();
 		let ncm: &'static TestChainMonitor<'static> = leak(TestChainMonitor::new(
 			Some(self.nodes[i].chain_source), self.nodes[i].tx_broadcaster, self.nodes[i].logger, self.nodes[i].fee_estimator,
@@ -1154,12 +1188,14 @@ fn build_net(run: u64, cfg: &Value, log: &Log) -> Net {
 	let mut net = Net {
 		nodes, cfgs, persisters, queues: HashMap::new(), connected, log: log.clone(), chans, hashes, points: Vec::new(),
 		pays: Vec::new(), scids, chan_ids, run, feerate: vec![feerate0; n], executed: 0, skipped: 0,
-		funding_txids: Vec::new(), extra_funding: Vec::new(), extra_broadcast: Vec::new(), mgr_snaps: vec![Vec::new(); n], mgr_clean: vec![Vec::new(); n], saved_idx: vec![None; n], node_cfgs, txids, edges: edges.clone(),
+		funding_txids: Vec::new(), extra_funding: Vec::new(), extra_broadcast: Vec::new(), mgr_snaps: vec![Vec::new(); n], mgr_clean: vec![Vec::new(); n], mgr_msgs: vec![Vec::new(); n], msgs_emitted: vec![0; n], dirty: vec![HashSet::new(); n], mgr_held: vec![Vec::new(); n], reest_seen: HashSet::new(), saved_idx: vec![None; n], node_cfgs, txids, edges: edges.clone(),
 	};
 	for i in 0..n {
 		let _ = net.nodes[i].node.get_and_clear_needs_persistence();
 		net.mgr_snaps[i].push(net.nodes[i].node.encode());
 		net.mgr_clean[i].push(true);
+		net.mgr_msgs[i].push(0);
+		net.mgr_held[i].push(HashSet::new());
 	}
 	for &(i, j) in edges.iter() {
 		let cid = net.chan_ids[&(i, j)];
